@@ -39,7 +39,7 @@ def probe(ctx, binary, N, C):
 
 
 def run(ctx):
-    confs = [(4, 1, 3, 3), (7, 2, 4, 3)] if not ctx.thorough else [(4, 1, 4, 3), (7, 2, 4, 3), (10, 3, 5, 3)]
+    confs = [(4, 1, 3, 3), (7, 2, 3, 3)] if not ctx.thorough else [(4, 1, 4, 3), (7, 2, 4, 3), (10, 3, 5, 3)]
     binary = ctx.go_test_bin("core/store/ledgerstore", harness="b_sig_ledger")
     if ctx.replay_in:
         import json, sys
